@@ -13,14 +13,17 @@
 
   PROVED (`…_partial`): exactly these statements for every run that takes no *flagged* branch,
   `Step.flagsOf … = []` being the executable no-flag predicate (the flags are the branches
-  HeadIsPair, NilHead, OpByName, IntIsName, NonCanonicalOp, NonCanonicalPath, ZeroPath, LegacyZero of
-  `Step.stepFlags`).  The statements hold for an arbitrary nested head runner `hr` (that branch is
+  HeadIsPair, NilHead, RefusedOp, OpByName, IntSpellsName, LegacyZero of `Step.stepFlags`; the former
+  flags IntIsName-on-opcodes, NonCanonicalOp, NonCanonicalPath, ZeroPath are gone with the repairs
+  5f6df3d/F2/F3: every path spelling is unflagged, see `path_unflagged` / `path_value_iff`).  The statements hold for an arbitrary nested head runner `hr` (that branch is
   flagged), an arbitrary primitive map `pm`, both integer modes `m`, and every operator table
   that agrees with clvmr on the four operators the stepper implements itself (`CoreOps`) and
   whose operators are total (`NoFuelOps`, needed for the soundness direction only).
   What is missing for the full statement is precisely the flagged branches: each is shown to
-  break it by a `decide`d witness (NilHead is the exception: there the stepper only fails
-  *earlier* than clvmr would; no diverging witness exists for total operand evaluation).
+  break it by a `decide`d witness (NilHead and RefusedOp are the exception: there the stepper only
+  fails *earlier* than clvmr would - before the operands are evaluated; no diverging witness
+  exists for total operand evaluation, and consensus never returns a value there:
+  `refusedOp_no_consensus_value`).
   (Helper lemmas live in Proofs/; only the property statements are here.)
 -/
 import ChialispModel.Clvm.Step
@@ -103,6 +106,62 @@ theorem coreOps_chia : CoreOps Ops.chiaOps := StepLemmas.coreOps_chia
 theorem noFuelOps_chia : NoFuelOps Ops.chiaOps := StepLemmas.noFuelOps_chia
 
 -- ---------------------------------------------------------------------------------------
+-- paths (fix: 29cb476): the FULL statement, no flag hypothesis
+-- ---------------------------------------------------------------------------------------
+
+/-- a program that is a path - any spelling of an atom: `Nil`, `Integer`, `Atom`, `QuotedString` -
+    never takes a flagged branch. -/
+theorem path_unflagged (p e : Rich) (hp : ∀ a b, p ≠ .cons a b) :
+    ∀ lim, flagsOf hr m pm ops lim p e = [] :=
+  StepLemmas.path_unflagged hr m pm ops p e hp
+
+/-- value ⇔ value for every path in every spelling (signed / unsigned reading, redundant prefixes,
+    zero paths included), unconditionally. -/
+theorem path_value_iff (hc : CoreOps ops) (hnf : NoFuelOps ops) (p e : Rich) (hp : ∀ a b, p ≠ .cons a b) (w : Val) :
+    (∃ lim v, runWith hr m pm ops lim p e = .ok v ∧ toClvm m v = w) ↔
+      Evaluates ops (toClvm m p) (toClvm m e) w :=
+  step_value_iff_partial hr m pm ops hc hnf p e w (path_unflagged hr m pm ops p e hp)
+
+/-- failure ⇔ failure for every path in every spelling, unconditionally. -/
+theorem path_fail_iff (hc : CoreOps ops) (hnf : NoFuelOps ops) (p e : Rich) (hp : ∀ a b, p ≠ .cons a b) :
+    (∃ lim err, runWith hr m pm ops lim p e = .error err ∧ err ≠ .timeout) ↔
+      Fails ops (toClvm m p) (toClvm m e) :=
+  step_fail_iff_partial hr m pm ops hc hnf p e (path_unflagged hr m pm ops p e hp)
+
+-- ---------------------------------------------------------------------------------------
+-- refused operator atoms (fix: 4c2caac): an early refusal, never a different value
+-- ---------------------------------------------------------------------------------------
+
+/-- the stepper refuses an operator atom that is no primitive name and not the minimal encoding
+    of its value, at once. -/
+theorem refusedOp_stepper_fails (v : Bytes) (hname : pm.lookup v = none) (hcan : Bytes.canonical v = false)
+    (b ctx : Rich) (k : Config) :
+    runStep hr m pm ops (.step (.cons (.atom v) b) ctx k) = .error (.op "unknown operator") ∧
+    stepFlags m pm (.step (.cons (.atom v) b) ctx k) = [.refusedOp] := by
+  simp [runStep, stepCons, translateHead, translateBytes, stepFlags, headFlags, bytesHeadFlags, hname, hcan]
+
+/-- … and the consensus evaluator never returns a value for such a program, for any operator table
+    that refuses that atom (clvmr's strict dialect refuses every non-minimal operator atom:
+    `chia_refuses_noncanonical`). -/
+theorem refusedOp_no_consensus_value (v : Bytes) (hcan : Bytes.canonical v = false)
+    (hstrict : ∀ args, ∃ t, ops.apply v args = .error (.fail t)) (args env w : Val) :
+    ¬ Evaluates ops (.pair (.atom v) args) env w :=
+  StepLemmas.refused_no_value ops v hcan hstrict args env w
+
+theorem chia_refuses_noncanonical (v : Bytes) (hcan : Bytes.canonical v = false) (args : Val) :
+    ∃ t, Ops.chiaOps.apply v args = .error (.fail t) :=
+  StepLemmas.chia_refuses_noncanonical v hcan args
+
+example : ¬ Evaluates Ops.chiaOps (.pair (.atom [0, 4]) (.atom [])) (.atom []) (.atom []) :=
+  refusedOp_no_consensus_value Ops.chiaOps [0, 4] (by decide) (chia_refuses_noncanonical [0, 4] (by decide)) _ _ _
+
+example : runStep hr m chiaPrims ops (.step (.cons (.atom [0, 4]) .nil) .nil (.done .nil)) = .error (.op "unknown operator") :=
+  (refusedOp_stepper_fails hr m chiaPrims ops [0, 4] (by decide) (by decide) .nil .nil (.done .nil)).1
+
+example : ∀ lim, flagsOf hr m pm ops lim (.atom [255, 128]) (.cons (.int 1) (.int 2)) = [] :=
+  path_unflagged hr m pm ops _ _ (by intro a b h; cases h)
+
+-- ---------------------------------------------------------------------------------------
 -- witnesses: each flagged class really breaks the unconditioned statement
 -- (model = real code on these inputs: replayed through `cvh step` by tools/props/c06.py)
 -- ---------------------------------------------------------------------------------------
@@ -133,42 +192,61 @@ theorem opByName_counterexample :
     flags true (.cons (.atom [43]) (.cons (qt (.int 1)) (.cons (qt (.int 2)) .nil))) .nil = [.opByName] := by
   decide
 
-/-- IntIsName: opcode 61 (`%`) has the bytes of the NAME `=`; the stepper compares where clvmr takes
-    the remainder (`(61 (q . 7) (q . 7))`: 1 here, 0 = nil in consensus).  (`%` is not in the driver's
-    operator table, so the consensus side of this witness is checked on the real code only.) -/
-theorem intIsName_counterexample :
-    stepper true (.cons (.int 61) (.cons (qt (.int 7)) (.cons (qt (.int 7)) .nil))) .nil = .ok (.int 1) ∧
-    flags true (.cons (.int 61) (.cons (qt (.int 7)) (.cons (qt (.int 7)) .nil))) .nil = [.intIsName] := by
-  decide
-
-/-- IntIsName on an integer that is no opcode: 43 spells "+". -/
-theorem intIsName_plus_counterexample :
+/-- IntSpellsName: the integer 43 is no opcode, its encoding spells "+"; the stepper adds, for clvmr
+    43 is an unknown operator. -/
+theorem intSpellsName_counterexample :
     stepper true (.cons (.int 43) (.cons (qt (.int 1)) (.cons (qt (.int 2)) .nil))) .nil = .ok (.int 3) ∧
     Except.isFail (consensus true (.cons (.int 43) (.cons (qt (.int 1)) (.cons (qt (.int 2)) .nil))) .nil) = true ∧
-    flags true (.cons (.int 43) (.cons (qt (.int 1)) (.cons (qt (.int 2)) .nil))) .nil = [.intIsName] := by
+    flags true (.cons (.int 43) (.cons (qt (.int 1)) (.cons (qt (.int 2)) .nil))) .nil = [.intSpellsName] := by
   decide
 
-/-- NonCanonicalOp: operator `0x0004` is unknown to clvmr; the stepper conses. -/
-theorem nonCanonicalOp_counterexample :
+-- ---------------------------------------------------------------------------------------
+-- repaired classes (fix: 5f6df3d / 29cb476 / 4c2caac): the former counter-witnesses
+-- now agree with consensus and raise no divergence flag
+-- ---------------------------------------------------------------------------------------
+
+/-- (was IntIsName, 5f6df3d) an integer that is a primitive's opcode is never re-read as a name,
+    whatever the primitive map. -/
+theorem opcodeInt_repaired (i : Int) (h : isOpcode pm i = true) :
+    translateInt pm i = .int i ∧ intHeadFlags pm i = [] := by
+  unfold translateInt intHeadFlags
+  cases pm.lookup (Bytes.ofInt i) <;> simp [h]
+
+/-- (was IntIsName, 5f6df3d) opcode 61 (`%`, the byte of the NAME `=`) and opcode 62 (`keccak256`,
+    the byte of `>`) stay 61 and 62; the run hands `%` to the delegate (the driver's operator table
+    does not implement it: "UNSUPPORTED"; on the real code clvmr takes the remainder) instead of
+    comparing, and raises no flag. -/
+theorem intIsName_repaired :
+    translateInt chiaPrims 61 = .int 61 ∧ translateInt chiaPrims 62 = .int 62 ∧
+    stepper true (.cons (.int 61) (.cons (qt (.int 7)) (.cons (qt (.int 7)) .nil))) .nil = .error (.op "UNSUPPORTED") ∧
+    flags true (.cons (.int 61) (.cons (qt (.int 7)) (.cons (qt (.int 7)) .nil))) .nil = [] := by
+  decide
+
+/-- (was NonCanonicalOp, 4c2caac) operator `0x0004` is unknown to clvmr and refused by the stepper
+    (RefusedOp only marks that the stepper refuses before the operands are evaluated). -/
+theorem nonCanonicalOp_repaired :
     stepper true (.cons (.atom [0, 4]) (.cons (qt (.int 1)) (.cons (qt (.int 2)) .nil))) .nil
-      = .ok (.cons (.int 1) (.int 2)) ∧
+      = .error (.op "unknown operator") ∧
     Except.isFail (consensus true (.cons (.atom [0, 4]) (.cons (qt (.int 1)) (.cons (qt (.int 2)) .nil))) .nil) = true ∧
-    flags true (.cons (.atom [0, 4]) (.cons (qt (.int 1)) (.cons (qt (.int 2)) .nil))) .nil = [.nonCanonicalOp] := by
+    flags true (.cons (.atom [0, 4]) (.cons (qt (.int 1)) (.cons (qt (.int 2)) .nil))) .nil = [.refusedOp] := by
   decide
 
-/-- NonCanonicalPath: the path atom `0xff80` is 65408 for clvmr (path into atom on this
-    environment) and -128 → 128 for the stepper (seven `first`s). -/
-theorem nonCanonicalPath_counterexample :
-    stepper true (.atom [255, 128]) deepEnv = .ok (.cons (.int 42) (.int 1)) ∧
+/-- (was NonCanonicalPath, 29cb476) the path atom `0xff80` is 65408 for both: a path into an atom
+    on this environment. -/
+theorem nonCanonicalPath_repaired :
+    stepper true (.atom [255, 128]) deepEnv = .error .path ∧
     Except.isFail (consensus true (.atom [255, 128]) deepEnv) = true ∧
-    flags true (.atom [255, 128]) deepEnv = [.nonCanonicalPath] := by
+    flags true (.atom [255, 128]) deepEnv = [] := by
   decide
 
-/-- ZeroPath: the path `0x00` (a zero not spelled `()`) is nil for clvmr, "bad path" here. -/
-theorem zeroPath_counterexample :
-    stepper true (.qstr 120 [0]) (.cons (.int 10) (.int 77)) = .error .path ∧
+/-- (was ZeroPath, 29cb476) the path `0x00` (a zero not spelled `()`) is nil for both. -/
+theorem zeroPath_repaired :
+    stepper true (.qstr 120 [0]) (.cons (.int 10) (.int 77)) = .ok .nil ∧
     consensus true (.qstr 120 [0]) (.cons (.int 10) (.int 77)) = .ok (.atom []) ∧
-    flags true (.qstr 120 [0]) (.cons (.int 10) (.int 77)) = [.zeroPath, .zeroPath] := by
+    flags true (.qstr 120 [0]) (.cons (.int 10) (.int 77)) = [] ∧
+    stepper true (.int 0) (.cons (.int 10) (.int 77)) = .ok .nil ∧
+    stepper false (.int 0) (.cons (.int 10) (.int 77)) = .ok .nil ∧
+    consensus false (.int 0) (.cons (.int 10) (.int 77)) = .ok (.atom []) := by
   decide
 
 /-- LegacyZero (legacy integer mode): `(i (q . 0) (q . 5) (q . 6))` where `0` converts to the
@@ -191,15 +269,15 @@ theorem nilHead_witness :
   decide
 
 /-- the unconditioned soundness statement is false of the model (hence, by the correspondence
-    runs, of the code): operator `0x0004` returns a value no consensus run returns. -/
+    runs, of the code): the operator atom `"+"` returns a value no consensus run returns. -/
 theorem full_statement_false :
     ¬ (∀ (m : Mode) (p e v : Rich) (lim : Nat),
         run m chiaPrims Ops.chiaOps 4 lim p e = .ok v →
         Evaluates Ops.chiaOps (toClvm m p) (toClvm m e) (toClvm m v)) := by
   intro h
-  obtain ⟨h1, h2, _⟩ := nonCanonicalOp_counterexample
+  obtain ⟨h1, h2, _⟩ := opByName_counterexample
   obtain ⟨f, hf⟩ := h true _ _ _ 60 h1
-  cases h3 : consensus true (.cons (.atom [0, 4]) (.cons (qt (.int 1)) (.cons (qt (.int 2)) .nil))) .nil with
+  cases h3 : consensus true (.cons (.atom [43]) (.cons (qt (.int 1)) (.cons (qt (.int 2)) .nil))) .nil with
   | ok v => rw [h3] at h2; cases h2
   | error ce =>
     cases ce with
